@@ -174,6 +174,7 @@ class _InsideComps(ast.NodeTransformer):
         self.bound = frozenset()
         self.inside = False
         self.occurrences = []  # dependent flags
+        self.shadowing = set()  # loop variables in scope that the occurrences use
 
     def _comp(self, node):
         saved = (self.bound, self.inside)
@@ -216,6 +217,7 @@ class _InsideComps(ast.NodeTransformer):
             return self.generic_visit(node)
         if hit:
             self.occurrences.append(dep)
+            self.shadowing |= names & self.bound
             return ast.copy_location(ast.Call(func=ast.Name(id="__rin", ctx=ast.Load()),
                                               args=[ast.Constant(value=dep), new], keywords=[]), node)
         return new
@@ -223,7 +225,8 @@ class _InsideComps(ast.NodeTransformer):
 
 def inside_values(text, kd, inputs, params):
     """For the sub-expression with dump ``kd``: (flags of its occurrences inside comprehensions - True = uses a loop
-    variable in scope there, the objects those occurrences evaluated to while Python evaluated the condition)."""
+    variable in scope there, the objects those occurrences evaluated to while Python evaluated the condition, the loop
+    variables in scope that the occurrences use)."""
     tree = ast.parse(text, mode="eval")
     tr = _InsideComps(kd)
     new = tr.visit(tree)
@@ -241,4 +244,4 @@ def inside_values(text, kd, inputs, params):
         eval(compile(new, "<cond-inside>", "eval"), g)
     except Exception:  # noqa
         pass
-    return tr.occurrences, seen
+    return tr.occurrences, seen, tr.shadowing
